@@ -18,7 +18,7 @@ EXPLANATION = (
     "evaluated on the Yosys MRO): R-tr-hooks, R-tr-handlers, R-tr-optable (plus agreement of the Yosys and SV operator tables), "
     "R-tr-assign, R-tr-slice (incl. the Yosys size-cast forms x[msb:0] / zero padding), R-tr-width-cast, R-tr-conn (incl. the "
     "queue discipline of rtlir_tr_connection: first dequeued = writer, second = reader), R-tr-sigexpr, R-tr-for, R-tr-modname, "
-    "R-tr-constcache, R-tr-index-queue, R-tr-dedup-scope, R-tr-loop-state, R-tr-memo-scope, R-tr-ident-intact, R-tr-name-scope, R-tr-const-inline (the Yosys back-end declares no constants: a constant-array access is inlined or rejected on every path), R-layout-agree (Yosys struct literals: first field most significant, packed-array element 0 least "
+    "R-tr-constcache, R-tr-index-queue, R-tr-dedup-scope, R-tr-loop-state, R-tr-memo-scope, R-tr-ident-intact, R-tr-ifc-source, R-tr-range, R-tr-block-state, R-tr-name-scope, R-tr-const-inline (the Yosys back-end declares no constants: a constant-array access is inlined or rejected on every path), R-layout-agree (Yosys struct literals: first field most significant, packed-array element 0 least "
     "significant). Flattening rules: R-C12-flatten -- a flat leaf port is connected to [c-1 : c-w] of the packed wire with a "
     "running MSB counter that starts at the struct width, is handed to a field before that field's width is subtracted, decreases "
     "by field.get_length() in declaration order and is asserted to end at 0; packed arrays iterate n-1..0 and advance by "
@@ -42,7 +42,8 @@ ASSUMPTIONS = [
 
 _SHARED = (T.rule_hooks, T.rule_handlers, T.rule_optable, T.rule_assign, T.rule_slice, T.rule_width_cast, T.rule_conn,
            T.rule_sigexpr, T.rule_for, T.rule_modname, T.rule_constcache, T.rule_layout, T.rule_index_queue, T.rule_dedup_scope,
-           T.rule_loop_state, T.rule_memo_scope, T.rule_ident_intact, T.rule_name_scope, T.rule_const_inline)
+           T.rule_loop_state, T.rule_memo_scope, T.rule_ident_intact, T.rule_name_scope, T.rule_const_inline,
+           T.rule_ifc_source, T.rule_range_args, T.rule_block_state)
 RULES = [partial(f, backend=BACKEND) for f in _SHARED]
 for _f, _g in zip(RULES, _SHARED):
     _f.__name__ = _g.__name__
@@ -58,6 +59,16 @@ def rule_typecheck_bounds(repo):
 
 
 RULES.append(rule_typecheck_bounds)
+
+
+def rule_reserved_names(repo):
+    """every declaration generator of the Yosys back-end (port / wire / interface / sub-component wire forms) passes the
+    user-chosen identifier through the reserved-word check on every path.  Shared with C13 (R-C13-reserved)."""
+    from rules.c13 import rule_reserved
+    return rule_reserved(repo)
+
+
+RULES.append(rule_reserved_names)
 
 # ---------------------------------------------------------------------------
 YB1, YB2, YB3, YB4, YB5 = T.YS_B[1:6]
@@ -146,6 +157,31 @@ MUTANTS = [
        "      target = targets[0], assignment_op = assignment_op, value = value\n    ) ]", 'R-tr-assign'),
     _m('tmpvar-lookup-before-loopvar', T.GEN[2], "      if node.id in s.loop_var_env:\n        ret = bir.LoopVar( node.id )\n      elif node.id in s.tmp_var_env:\n        ret = bir.TmpVar( node.id, s._upblk_name )\n",
        "      if node.id in s.tmp_var_env:\n        ret = bir.TmpVar( node.id, s._upblk_name )\n      elif node.id in s.loop_var_env:\n        ret = bir.LoopVar( node.id )\n", 'R-tr-name-scope'),
+    # round-6 kinds
+    _m('yosys-nested-ifc-ports-only', YS3, "all_properties = ifc.get_all_properties_packed()", "all_properties = ifc.get_all_ports_packed()", 'R-tr-ifc-source'),
+    _m('port-map-ifc-ports-only', T.YS_UTIL, "in ifc.get_all_properties_packed():", "in ifc.get_all_ports_packed():", 'R-tr-ifc-source'),
+    _m('subcomp-ifc-ports-only', T.G_S4, "all_ifc_ports = ifc_port_rtype.get_all_properties_packed()", "all_ifc_ports = ifc_port_rtype.get_all_ports_packed()", 'R-tr-ifc-source'),
+    dict(name='freevar-bits-formatted-as-decimal', rule='R-tr-width-cast', edits=[
+        dict(file=YB1, old="    if isinstance( node.obj, int ):\n      nbits = node.Type.get_dtype().get_length()\n      return f\"{nbits}'d{node.obj}\"\n    elif isinstance( node.obj, Bits ):\n      nbits = node.obj.nbits\n      value = int( node.obj )\n      return f\"{nbits}'d{value}\"\n",
+             new="    if isinstance( node.obj, ( int, Bits ) ):\n      nbits = node.Type.get_dtype().get_length()\n      return f\"{nbits}'d{node.obj}\"\n", count=1)]),
+    _m('const-attr-bits-formatted-as-decimal', YB1, "        value = int( obj )\n        node.sexpr['s_attr'] = f\"{nbits}'d{value}\"", "        value = obj\n        node.sexpr['s_attr'] = f\"{nbits}'d{value}\"", 'R-tr-width-cast'),
+    _m('wire-name-not-checked', YS1, "    assert isinstance( dtype, rdt.Vector )\n    s.check_decl( id_, \"\" )\n    return s.wire_vector_gen( id_, dtype, n_dim )", "    assert isinstance( dtype, rdt.Vector )\n    return s.wire_vector_gen( id_, dtype, n_dim )",
+       'R-C13-reserved'),
+    _m('range-start-forgotten', T.GEN[2], "      # range( start, end )\n      start = s.visit( args[0] )\n      end = s.visit( args[1] )", "      # range( start, end )\n      start = bir.Number( 0 )\n      end = s.visit( args[1] )",
+       'R-tr-range'),
+    # re-introductions of the defects repaired by c03_else_begin / c03_operand_parens_and_sext / c03_bool_literal (stale without them)
+    dict(name='freevar-bits-formatted-as-decimal-2', rule='R-tr-width-cast', edits=[
+        dict(file=YB1, old="    if isinstance( node.obj, int ):\n      nbits = node.Type.get_dtype().get_length()\n      return f\"{nbits}'d{int(node.obj)}\"\n    elif isinstance( node.obj, Bits ):\n      nbits = node.obj.nbits\n      value = int( node.obj )\n      return f\"{nbits}'d{value}\"\n",
+             new="    if isinstance( node.obj, ( int, Bits ) ):\n      nbits = node.Type.get_dtype().get_length()\n      return f\"{nbits}'d{node.obj}\"\n", count=1)]),
+    _m('yosys-cast-branches-swapped-2', YB1, "      if cur_nbits > nbits:\n        msb = nbits-1", "      if cur_nbits < nbits:\n        msb = nbits-1", 'R-tr-slice'),
+    _m('yosys-freevar-unsized-2', YB1, """      return f"{nbits}'d{int(node.obj)}\"""", """      return f"{int(node.obj)}\"""", 'R-tr-width-cast'),
+    _m('yosys-const-attr-unsized-2', YB1, """        node.sexpr['s_attr'] = f"{nbits}'d{int(obj)}\"""", """        node.sexpr['s_attr'] = f"{int(obj)}\"""", 'R-tr-width-cast'),
+    _m('yosys-for-begin-counts-ir-statements', YB2, "begin    = ' begin' if s.count_stmts( node.body ) > 1 else ''", "begin    = ' begin' if len( node.body ) > 1 else ''", 'R-tr-assign'),
+    _m('yosys-freevar-without-int', YB1, "'d{int(node.obj)}", "'d{node.obj}", 'R-tr-width-cast'),
+    _m('yosys-const-attr-without-int', YB1, "'d{int(obj)}", "'d{obj}", 'R-tr-width-cast'),
+    _m('yosys-cast-identity-unparenthesised', YB1, "        # The operand itself takes the place of the cast\n        return s.visit_expr_wrap( node.value )",
+       "        # The operand itself takes the place of the cast\n        return s.visit( node.value )", 'R-tr-slice'),
+    _m('else-end-counts-ir-statements', T.SV_B[2], "      if s.count_stmts( node.orelse ) > 1:\n        src.extend( [ 'end' ] )", "      if len( node.orelse ) > 1:\n        src.extend( [ 'end' ] )", 'R-tr-assign'),
     # shared rules on the Yosys classes
     _m('yosys-assign-direction', YS1, 'return f"assign {rd} = {wr};"', 'return f"assign {wr} = {rd};"', 'R-tr-conn'),
     _m('yosys-part-select-inclusive', YS1, "_stop = stop-1", "_stop = stop", 'R-tr-slice'),
@@ -199,6 +235,7 @@ MUTANTS = [
 ]
 
 EQUIV = [
+    _m('cast-comparison-flipped-2', YB1, "      if cur_nbits > nbits:\n        msb = nbits-1", "      if nbits < cur_nbits:\n        msb = nbits-1"),
     _m('seq-block-visit-result-renamed', YB1, "    upblk = super().visit_SeqUpblk( node )\n    return s.get_loopvars() + upblk", "    blk = super().visit_SeqUpblk( node )\n    decls = s.get_loopvars()\n    return decls + blk"),
     _m('port-map-struct-field-keyword-free', T.YS_UTIL, "    if not n_dim:\n      return _mangle_dtype( pname, vname, port, dtype, port_idx )", "    if len(n_dim) == 0:\n      return _mangle_dtype( pname, vname, port, dtype, port_idx )"),
     _m('port-binding-padded-by-spec', YS4, 'p_conn_tplt = ".{port_id: <15}( {port_wire_id} )"', 'p_conn_tplt = ".{port_id: <15}( {port_wire_id:^25} )"'),
